@@ -14,6 +14,12 @@ pub enum Tier {
     Thorough,
 }
 
+/// Shared with the CPU-time monitor thread (main.rs): a counter that moves whenever a new case is announced, the case
+/// itself, and the largest CPU time one case was seen to take.
+pub static CASE_SEQ: std::sync::atomic::AtomicU64 = std::sync::atomic::AtomicU64::new(0);
+pub static CASE_NOW: std::sync::Mutex<(String, u64)> = std::sync::Mutex::new((String::new(), 0));
+pub static MAX_CASE_CPU_MS: std::sync::atomic::AtomicU64 = std::sync::atomic::AtomicU64::new(0);
+
 pub struct Violation {
     pub sig: String,
     pub count: u64,
@@ -167,6 +173,13 @@ impl Ctx {
             let _ = f.write_at(&buf, 0);
         }
         self.cur = (stream.to_string(), index);
+        if let Ok(mut c) = CASE_NOW.lock() {
+            if c.0 != stream {
+                c.0 = stream.to_string();
+            }
+            c.1 = index;
+        }
+        CASE_SEQ.fetch_add(1, std::sync::atomic::Ordering::Relaxed);
         true
     }
 
@@ -267,6 +280,10 @@ impl Ctx {
                 bytes.extend_from_slice(&x.to_le_bytes());
             }
             let _ = std::fs::write(path, bytes);
+        }
+        let mc = MAX_CASE_CPU_MS.load(std::sync::atomic::Ordering::Relaxed);
+        if mc > 0 {
+            self.notes.insert("max_cpu_seconds_spent_in_one_case".to_string(), json!(mc as f64 / 1000.0));
         }
         let out = json!({
             "prop": self.prop,
